@@ -14,6 +14,14 @@ import (
 func vC11Sections(c *Client) []string {
 	tbl := aws.String(vTbl)
 	k := nd.StringN("k", 1)
+	// preparation steps: the situation in which the section has its full effect
+	setups := map[string]func(){
+		"CreateTable": func() { c.DeleteTable(vCtx, &dynamodb.DeleteTableInput{TableName: aws.String("other")}) },
+		"DeleteTable": func() { AddTable(vCtx, c, "other", "p", "") },
+		"UpdateTable": func() {
+			c.UpdateTable(vCtx, &dynamodb.UpdateTableInput{TableName: tbl, GlobalSecondaryIndexUpdates: []types.GlobalSecondaryIndexUpdate{{Delete: &types.DeleteGlobalSecondaryIndexAction{IndexName: aws.String("late")}}}})
+		},
+	}
 	secs := []struct {
 		name string
 		f    func()
@@ -52,7 +60,11 @@ func vC11Sections(c *Client) []string {
 	}
 	names := []string{}
 	for _, s := range secs {
-		nd.Section(s.name, s.f)
+		if setup := setups[s.name]; setup != nil {
+			nd.SectionSetup(s.name, setup, s.f)
+		} else {
+			nd.Section(s.name, s.f)
+		}
 		names = append(names, s.name)
 	}
 	return names
